@@ -230,9 +230,10 @@ def cooNormalise (q : List (Nat × Nat × Rat)) : List (Nat × Nat × Rat) :=
 def cooSort (q : List (Nat × Nat × Rat)) : List (Nat × Nat × Rat) :=
   (cooNormalise q).mergeSort fun a b => decide (a.1 < b.1) || (decide (a.1 = b.1) && decide (a.2.1 ≤ b.2.1))
 
-/-- the Python fallback (object dtype): `np.lexsort((row, col))`, i.e. by column, then by row -/
+/-- the Python fallback (object dtype): `np.lexsort((col, row))` — NumPy takes the primary key LAST — i.e. by row, then by
+    column, as the Cython back-ends do (repair 5e62c39; before it the keys were given in the other order) -/
 def cooSortPy (q : List (Nat × Nat × Rat)) : List (Nat × Nat × Rat) :=
-  (cooNormalise q).mergeSort fun a b => decide (a.2.1 < b.2.1) || (decide (a.2.1 = b.2.1) && decide (a.1 ≤ b.1))
+  (cooNormalise q).mergeSort fun a b => decide (a.1 < b.1) || (decide (a.1 = b.1) && decide (a.2.1 ≤ b.2.1))
 
 /-- the three parallel COO arrays of `to_numpy_vectors` -/
 structure QVec where
@@ -242,9 +243,9 @@ structure QVec where
 
 def QVec.triples (q : QVec) : List (Nat × Nat × Rat) := q.rows.zip (q.cols.zip q.biases)
 
-/-- `np.lexsort((row, col))`: the stable permutation that sorts by column, then by row -/
+/-- `np.lexsort((col, row))`: the stable permutation that sorts by row, then by column (repair 5e62c39) -/
 def lexsortPerm (rows cols : List Nat) : List Nat :=
-  argsortBy (fun (a b : Nat × Nat) => decide (a.2 < b.2) || (decide (a.2 = b.2) && decide (a.1 ≤ b.1))) (rows.zip cols)
+  argsortBy (fun (a b : Nat × Nat) => decide (a.1 < b.1) || (decide (a.1 = b.1) && decide (a.2 ≤ b.2))) (rows.zip cols)
 
 /-- the `sort_indices` block of the Python fallback as coded: swap where `row > col` (in both index arrays), then
     apply ONE permutation `order` to the rows, to the columns **and to the biases** -/
